@@ -330,3 +330,114 @@ def service_loop_iteration(w: World, sleep: float):
             want = min(r.max_backoff, max(b * r.mult_backoff, r.min_backoff))
         if len(sleeps) > 0:
             check(sleeps[0].args[0] == (want if want > 0 else sleep), "the wait after a call follows the back-off law")
+
+
+@lemma(props=["C05", "C02", "C07"], configs="none", raises=["Exception"],
+       stubs={"cloudsync.sync.manager:SyncManager.resolve_conflict": {"results": ["None"], "havoc": True},
+              "cloudsync.sync.manager:SyncManager.download_changed": {"results": ["True", "False"], "havoc": False}})
+def split_conflict_same_content_merges(w: World):
+    """L2.6 / L5.3: when both sides changed, the deferred side's bytes are hashed with the *other* side's hash function
+    and compared with that side's recorded hash; equal content is merged silently (no resolver, no provider write,
+    one entry discarded); different content goes to the resolver exactly once"""
+    mgr = w.mgr
+    defer_ent = w.entry("defer")
+    replace_ent = w.entry("replace")
+    defer_side = 1
+    replace_side = 0
+    assume(defer_ent[defer_side].otype == FILE)
+    assume(defer_ent[defer_side].temp_file is not None and len(defer_ent[defer_side].temp_file) > 0)
+    assume(replace_ent[replace_side].oid is not None)
+    want_hash = replace_ent[replace_side].hash
+    r = mgr.handle_split_conflict(defer_ent, defer_side, replace_ent, replace_side)
+    hs = [c for c in provider_calls() if c.method == "hash_data"]
+    check(len(provider_writes()) == 0, "handle_split_conflict itself writes nothing to a provider")
+    for c in hs:
+        check(c.side == replace_side, "content is hashed with the hash function of the side it is compared with")
+    res = calls("resolve_conflict")
+    if len(hs) == 1 and hs[0].ok and hs[0].result == want_hash:
+        check(len(res) == 0, "identical content: the resolver is not called")
+        check(r is True and replace_ent.is_discarded, "identical content: merged, the duplicate entry is discarded")
+        check(defer_ent[defer_side].sync_hash == defer_ent[defer_side].hash, "merged entry is recorded as synced (deferred side)")
+    if len(res) > 0:
+        check(len(res) == 1, "the resolver path is taken at most once")
+        check(len(hs) == 0 or not hs[0].ok or hs[0].result != want_hash, "the resolver is only reached for different content")
+
+
+@lemma(props=["C14", "C10", "C02"], configs="none", raises=["Exception"],
+       stubs={"cloudsync.sync.manager:SyncManager.check_revivify": {"results": ["None"], "raises": False, "havoc": False},
+              "cloudsync.sync.manager:SyncManager.finished": {"results": ["None"], "raises": False, "havoc": False}})
+def pre_sync_rereads_both_sides(w: World):
+    """L14.3: before an entry is acted on, the truth is re-read from *both* providers: whenever pre_sync lets the
+    entry through (returns False) the last thing it did is a full get_latest of the entry, in backoff or not"""
+    mgr = w.mgr
+    sync = w.entry("sync")
+    r = mgr.pre_sync(sync)
+    gl = calls("get_latest")
+    if r is False:
+        check(len(gl) >= 1, "get_latest was called")
+        last = gl[len(gl) - 1]
+        check(last.args[0] is sync, "on the entry being synced")
+        check(len(last.args[1]) == 2 and last.args[1][0] == 0 and last.args[1][1] == 1, "for both sides")
+    else:
+        check(sync.is_discarded, "only a discarded entry is finished without syncing")
+        check(len(provider_writes()) == 0, "without any provider write")
+
+
+@lemma(props=["C02", "C14"], configs="sides", raises=["Exception"], fixed_clock=True)
+def get_latest_flags_unseen_changes(w: World):
+    """L14.3: re-reading a side from its provider records what is there now -- and an unseen content or path change
+    marks that side changed (so that a delete on the other side cannot win over it); a vanished object becomes a
+    tombstone; the oid never changes"""
+    state = w.state
+    ent = w.entry("ent")
+    side = w.changed
+    h0 = ent[side].hash
+    p0 = ent[side].path
+    c0 = ent[side].changed
+    oid0 = ent[side].oid
+    ig0 = ent.ignored
+    ex0 = ent[side].exists
+    state.unconditionally_get_latest(ent, side)
+    check(ent[side].oid == oid0, "the oid is not changed by a re-read")
+    infos = [c for c in provider_calls() if c.method == "info_oid"]
+    check(len(provider_writes()) == 0, "re-reading writes nothing")
+    if oid0 is None:
+        check(len(infos) == 0, "no provider call without an oid")
+    if len(infos) == 1 and infos[0].ok and infos[0].result is not None:
+        info = infos[0].result
+        if info.hash != h0 and ig0 == IgnoreReason.NONE and not c0:
+            check(truthy(ent[side].changed), "an unseen content change marks the side changed")
+        if info.hash is not None:
+            check(ent[side].hash == info.hash, "the provider's hash is recorded")
+        check(ent[side].exists == EXISTS or ent[side].exists == CORRUPT, "the object exists (or stays corrupt)")
+        check(ent[side].size == info.size and ent[side].mtime == info.mtime, "size and mtime are recorded")
+    if len(infos) == 1 and infos[0].ok and infos[0].result is None:
+        check(ent[side].exists == TRASHED or ent[side].exists == MISSING or ent[side].exists == CORRUPT, "a vanished object becomes a tombstone")
+        check(ent[side].hash == h0 and ent[side].path == p0, "hash and path of a vanished object are kept")
+
+
+@lemma(props=["C04", "C03", "C11"], configs="sides", raises=["Exception"])
+def children_follow_a_renamed_folder(w: World, prior: str, path: str, rel: str):
+    """L4.4: when a folder's path changes, each child keeps its position relative to the folder: its path becomes
+    join(new folder path, relative path) and its last-synced path is re-rooted the same way"""
+    state = w.state
+    folder = w.entry("folder")
+    kid = w.entry("kid")
+    side = w.changed
+    prov = w.providers[side]
+    assume(folder[side].otype == DIRECTORY and prior != path and len(rel) > 0)
+    assume(kid[side].oid is not None and folder[side].oid is not None)
+    assume(not prov.oid_is_path)
+    set_kids(state, kid, rel)
+    sp0 = kid[side].sync_path
+    state._update_kids(folder, side, prior, path, prov)
+    check(kid[side].path == prov.join(path, rel), "the child's path is its relative path under the folder's new path")
+    if sp0:
+        srel = prov.is_subpath(prior, sp0)
+        if srel:
+            check(kid[side].sync_path == prov.join(path, srel), "the child's last-synced path is re-rooted with its own relative part")
+        else:
+            check(kid[side].sync_path == sp0, "a last-synced path outside the folder is left alone")
+    else:
+        check(kid[side].sync_path == sp0, "no last-synced path: nothing to re-root")
+    check(len(provider_writes()) == 0, "no provider write")
